@@ -9,6 +9,7 @@ import (
 	"os"
 	"reflect"
 	"sort"
+	"time"
 
 	"github.com/junioryono/godi/v4/verifx"
 )
@@ -193,6 +194,7 @@ func graphMain(args []string) {
 	fs := flag.NewFlagSet("graph", flag.ExitOnError)
 	obsMode := fs.String("obs", "last2", "all | last2")
 	nn := fs.Int("nodes", 4, "size of the node universe")
+	skip := fs.Int("skip", 0, "scenarios to skip (restart after a scenario that hung or crashed the process)")
 	fs.Parse(args)
 	universe := graphOrder[:*nn]
 	sc := bufio.NewScanner(os.Stdin)
@@ -206,7 +208,18 @@ func graphMain(args []string) {
 			os.Exit(4)
 		}
 		run++
+		if run <= *skip {
+			continue
+		}
 		emit(M{"ev": "reset", "run": run})
+		flushOut()
+		// a query or mutation that does not return (e.g. a depth computation on a graph wrongly taken for acyclic) is
+		// reported and ends this process; the driver runs the remaining scenarios in a fresh one
+		watchdog := time.AfterFunc(10*time.Second, func() {
+			emit(M{"ev": "hang", "op": "graph"})
+			flushOut()
+			os.Exit(3)
+		})
 		g := verifx.NewDependencyGraph()
 		pending := false
 		for i, op := range ops {
@@ -251,5 +264,6 @@ func graphMain(args []string) {
 				}
 			}()
 		}
+		watchdog.Stop()
 	}
 }
